@@ -214,20 +214,37 @@ Proof.
     inversion H; subst. constructor; [exists c; exact Ec|exact (IH _ _ eq_refl)].
 Qed.
 
+Lemma ip_bind_ok : forall {A B} (r : result A) (f : A -> result B) b, bind r f = Ok b ->
+  exists a, r = Ok a /\ f a = Ok b.
+Proof. intros A B r f b H. destruct r as [a| | |]; cbn [bind] in H; try discriminate. exists a. auto. Qed.
+
+Lemma ip_dumps_inv : forall cfg cd m b, dumps cfg cd false m = Ok b ->
+  exists m1 pl body mtib, enc_fields cfg cd m1 bit_range = Ok (pl, body) /\
+    match lookup m KMTI with
+    | Some (VStr []) | None => Ok []
+    | Some (VStr s) => encode cd s
+    | Some (VBytes []) => Ok []
+    | Some _ => Unmodelled
+    end = Ok mtib /\ b = mtib ++ bitmap_of pl ++ body.
+Proof.
+  intros cfg cd m b H. unfold dumps in H.
+  apply ip_bind_ok in H. destruct H as [cs [_ H]].
+  apply ip_bind_ok in H. destruct H as [m1 [_ H]].
+  apply ip_bind_ok in H. destruct H as [[pl body] [He H]].
+  apply ip_bind_ok in H. destruct H as [mtib [Hm H]].
+  apply ip_ok_inj in H. exists m1, pl, body, mtib. split; [exact He|]. split; [exact Hm|].
+  symmetry. exact H.
+Qed.
+
 Lemma ip_dumps_shape : forall cfg cd m b, wf_msgb cfg cd m = true -> dumps cfg cd false m = Ok b ->
   exists mti mtib pl body, length mti = 4 /\ forallb ascii_digit mti = true /\ encode cd mti = Ok mtib /\
     Forall (fun n => exists c, cfg_get cfg n = Some c) pl /\ b = mtib ++ bitmap_of pl ++ body.
 Proof.
   intros cfg cd m b Hwf H. destruct (ip_wf_mti cfg cd m Hwf) as [mti [Hl [Hlen Hdig]]].
-  unfold dumps in H.
-  destruct (pds_to_de m) as [cs| | |]; cbn [bind] in H; try discriminate.
-  destruct (assign_pds m cs (pds_bits cfg)) as [m1| | |]; cbn [bind] in H; try discriminate.
-  destruct (enc_fields cfg cd m1 bit_range) as [[pl body]| | |] eqn:Ee; cbn [bind fst snd] in H; try discriminate.
-  rewrite Hl in H. destruct mti as [|c0 mti']; [discriminate Hlen|].
-  destruct (encode cd (c0 :: mti')) as [mtib| | |] eqn:Em; cbn [bind] in H; try discriminate.
-  apply ip_ok_inj in H. rename H into Hb. exists (c0 :: mti'), mtib, pl, body.
-  split; [exact Hlen|]. split; [exact Hdig|]. split; [exact Em|]. split; [|symmetry; exact Hb].
-  exact (ip_enc_fields_present _ _ _ _ _ _ Ee).
+  destruct (ip_dumps_inv _ _ _ _ H) as [m1 [pl [body [mtib [He [Hm Hb]]]]]].
+  rewrite Hl in Hm. exists mti, mtib, pl, body.
+  split; [exact Hlen|]. split; [exact Hdig|]. split; [|split; [exact (ip_enc_fields_present _ _ _ _ _ _ He)|exact Hb]].
+  destruct mti as [|c0 mti']; [discriminate Hlen|exact Hm].
 Qed.
 
 (* ====================================================================== the bitmap *)
@@ -310,4 +327,187 @@ Proof.
       assert (Hle2 : B <= length S2) by nia.
       exists (firstn B S2), (lay B (skipn B S2)). split; [rewrite firstn_length; lia|].
       rewrite <- (firstn_skipn B S2) at 1. apply (lay_chunk B Bpos). rewrite firstn_length; lia.
+Qed.
+
+(* ====================================================================== block_check on the sample *)
+Lemma ip_block_check_true : forall B n f R, 2 * (B + 2) <= n ->
+  f = firstn B f ++ trailer ++ R -> length (firstn B f) = B ->
+  (R = [] \/ exists c2 R', length c2 = B /\ R = c2 ++ trailer ++ R') ->
+  block_check B (firstn n f) = true.
+Proof.
+  intros B n f R Hn Hf Hc1 HR. set (c1 := firstn B f) in *.
+  assert (Ht : length trailer = B + 2 - B) by (cbn [trailer length]; lia).
+  assert (Hs1 : slice B (B + 2) f = trailer).
+  { rewrite Hf. apply ip_slice_mid; [exact Hc1|exact Ht]. }
+  unfold block_check. rewrite (ip_slice_firstn B (B + 2) n f) by lia. rewrite Hs1.
+  replace (bytes_eqb trailer trailer) with true by reflexivity.
+  destruct HR as [HR|[c2 [R' [Hc2 HR]]]].
+  - assert (Hlen : length f = B + 2).
+    { rewrite Hf, HR. rewrite !app_length, Hc1. cbn [trailer length]. lia. }
+    rewrite firstn_all2 by lia. rewrite Hlen.
+    rewrite Nat.ltb_irrefl, Nat.eqb_refl. reflexivity.
+  - assert (Hf2 : f = (c1 ++ trailer ++ c2) ++ trailer ++ R').
+    { rewrite Hf at 1. rewrite HR. rewrite <- !app_assoc. reflexivity. }
+    assert (Hlen : 2 * (B + 2) <= length f).
+    { rewrite Hf2. rewrite !app_length, Hc1, Hc2. cbn [trailer length]. lia. }
+    assert (Hls : 2 * (B + 2) <= length (firstn n f)) by (rewrite firstn_length; lia).
+    assert (Hs2 : slice (2 * B + 2) (2 * B + 4) f = trailer).
+    { rewrite Hf2. apply ip_slice_mid.
+      - rewrite !app_length, Hc1, Hc2. cbn [trailer length]. lia.
+      - cbn [trailer length]. lia. }
+    rewrite (ip_slice_firstn (2 * B + 2) (2 * B + 4) n f) by lia. rewrite Hs2.
+    replace (bytes_eqb trailer trailer) with true by reflexivity.
+    destruct (length (firstn n f) <? B + 2) eqn:E1; [apply Nat.ltb_lt in E1; lia|].
+    destruct (Nat.eqb (length (firstn n f)) (B + 2)) eqn:E2; [reflexivity|].
+    destruct (2 * (B + 2) <=? length (firstn n f)) eqn:E3; [reflexivity|].
+    apply Nat.leb_gt in E3. lia.
+Qed.
+
+Lemma ip_block_check_false : forall B n f, B + 2 <= n -> slice B (B + 2) f <> trailer ->
+  block_check B (firstn n f) = false.
+Proof.
+  intros B n f Hn Hs. unfold block_check.
+  destruct (length (firstn n f) <? B + 2); [reflexivity|].
+  rewrite (ip_slice_firstn B (B + 2) n f) by exact Hn.
+  destruct (bytes_eqb (slice B (B + 2) f) trailer) eqn:E; [|reflexivity].
+  apply ip_bytes_eqb_eq in E. contradiction.
+Qed.
+
+(* ====================================================================== ipm_info on a file with a good head *)
+Lemma ip_sample_size : sample_size = 2500.
+Proof. reflexivity. Qed.
+
+Lemma ip_info_valid : forall B cfg mx l1 c37 f l4 mtib bm X,
+  length l4 = 4 -> length mtib = 4 -> length bm = 16 -> f = (l4 ++ mtib ++ bm) ++ X ->
+  (unbe l4 <= mx)%N -> bitmap_ok cfg bm = true ->
+  ipm_info B cfg mx l1 c37 f = Valid (block_check B (firstn sample_size f)) (encoding_check l1 c37 mtib).
+Proof.
+  intros B cfg mx l1 c37 f l4 mtib bm X H4 Hm Hb Hf Hle Hok.
+  pose proof ip_sample_size as Hss.
+  assert (Hlen : 24 <= length f) by (rewrite Hf; rewrite !app_length; lia).
+  assert (E4 : firstn 4 f = l4).
+  { rewrite Hf, <- app_assoc. apply ip_firstn_exact. exact H4. }
+  assert (E8 : slice 4 8 f = mtib).
+  { rewrite Hf, <- !app_assoc. apply ip_slice_mid; [exact H4|rewrite Hm; reflexivity]. }
+  assert (E24 : slice 8 24 f = bm).
+  { rewrite Hf. replace ((l4 ++ mtib ++ bm) ++ X) with ((l4 ++ mtib) ++ bm ++ X) by (rewrite <- !app_assoc; reflexivity).
+    apply ip_slice_mid; [rewrite app_length; lia|rewrite Hb; reflexivity]. }
+  unfold ipm_info. cbv zeta.
+  rewrite (ip_firstn_firstn 4 sample_size f) by lia.
+  rewrite (ip_slice_firstn 4 8 sample_size f) by lia.
+  rewrite (ip_slice_firstn 8 24 sample_size f) by lia.
+  rewrite E4, E8, E24, Hok.
+  destruct (length (firstn sample_size f) <? 24) eqn:E1.
+  { apply Nat.ltb_lt in E1. rewrite firstn_length in E1. lia. }
+  destruct (mx <? unbe l4)%N eqn:E2; [apply N.ltb_lt in E2; lia|].
+  reflexivity.
+Qed.
+
+(* ====================================================================== C17: writer output *)
+Lemma c17_writer_output : forall cd blocked ms file,
+  ms <> [] -> codec_okb cd = true ->
+  Forall (fun m => wf_msgb ip_packaged cd m = true /\
+                   forall b, dumps ip_packaged cd false m = Ok b -> (N.of_nat (length b) <= ip_maxlen)%N) ms ->
+  ipm_file 1012 ip_packaged cd blocked ms = Ok file ->
+  exists b e, ip_inspect file = Valid b e /\
+    (ip_ascii_digitsb cd = true -> e = GLatin1) /\
+    (ip_ebcdic_digitsb cd = true -> e = GCp037) /\
+    (blocked = true -> b = true) /\
+    (blocked = false -> slice 1012 1014 file <> trailer -> b = false).
+Proof.
+  intros cd blocked ms file Hne _ HF Hfile.
+  destruct ms as [|m rest]; [contradiction Hne; reflexivity|].
+  destruct (ip_ipm_file _ _ _ _ _ _ Hfile) as [bs [HF2 Hfile2]].
+  inversion HF2 as [|? b1 ? brest Hd1 Hrest]; subst. clear HF2.
+  inversion HF as [|? ? [Hwf Hmax] _]; subst. clear HF.
+  specialize (Hmax b1 Hd1).
+  destruct (ip_dumps_shape _ _ _ _ Hwf Hd1) as [mti [mtib [pl [body [Hmti [Hdig [Henc [Hpl Hb1]]]]]]]].
+  set (l4 := be32 (N.of_nat (length b1))).
+  assert (H4 : length l4 = 4) by reflexivity.
+  assert (Hm : length mtib = 4) by (rewrite (encode_length _ _ _ Henc); exact Hmti).
+  assert (Hbm : length (bitmap_of pl) = 16) by apply ip_bitmap_length.
+  assert (Hun : (unbe l4 <= ip_maxlen)%N).
+  { unfold l4. rewrite unbe_be32; [exact Hmax|]. pose proof ip_fact_maxlen. lia. }
+  assert (Hok : bitmap_ok ip_packaged (bitmap_of pl) = true) by (apply ip_bitmap_ok; exact Hpl).
+  assert (Hmne : mti <> []) by (intro C; subst mti; discriminate Hmti).
+  (* the record stream starts with the 24-byte head *)
+  assert (Hstream : forall T, vbs (b1 :: brest) ++ T
+                              = (l4 ++ mtib ++ bitmap_of pl) ++ (body ++ vbs brest ++ T)).
+  { intros T. rewrite vbs_cons. unfold FramingSpec.frame. fold l4. rewrite Hb1.
+    rewrite <- !app_assoc. reflexivity. }
+  set (file := file_of (writer_run 1012 blocked (map WWrite (b1 :: brest) ++ [WClose]))) in *.
+  assert (Hshape : exists X, file = (l4 ++ mtib ++ bitmap_of pl) ++ X /\
+            (blocked = true -> block_check 1012 (firstn sample_size file) = true)).
+  { destruct blocked.
+    - assert (Bpos : 0 < 1012) by lia.
+      destruct (ip_blocked_file 1012 Bpos (b1 :: brest)) as [n [k [Hk Hlay]]]. fold file in Hlay.
+      set (S := vbs (b1 :: brest) ++ repeat pad n) in *.
+      assert (HS : S = (l4 ++ mtib ++ bitmap_of pl) ++ (body ++ vbs brest ++ repeat pad n)) by apply Hstream.
+      assert (HlenS : 24 <= length S) by (rewrite HS; rewrite !app_length; lia).
+      assert (Hk1 : 1 <= k) by nia.
+      destruct (ip_lay_blocks 1012 Bpos S k Hk Hk1) as [R [HR1 HR2]].
+      assert (Hc1 : length (firstn 1012 S) = 1012) by (rewrite firstn_length; nia).
+      assert (Hff : firstn 1012 file = firstn 1012 S).
+      { rewrite Hlay, HR1. apply ip_firstn_exact. exact Hc1. }
+      exists (firstn (1012 - 24) (body ++ vbs brest ++ repeat pad n) ++ trailer ++ R). split.
+      + rewrite Hlay, HR1. rewrite HS at 1. rewrite firstn_app.
+        rewrite (firstn_all2 (l4 ++ mtib ++ bitmap_of pl)) by (rewrite !app_length; lia).
+        replace (length (l4 ++ mtib ++ bitmap_of pl)) with 24 by (rewrite !app_length; lia).
+        rewrite <- !app_assoc. reflexivity.
+      + intros _. apply (ip_block_check_true 1012 sample_size file R).
+        * rewrite ip_sample_size. lia.
+        * rewrite Hff. rewrite <- HR1. exact Hlay.
+        * rewrite Hff. exact Hc1.
+        * exact HR2.
+    - exists (body ++ vbs brest ++ []). split; [|discriminate].
+      unfold file. rewrite c03_layout_unblocked. rewrite <- (app_nil_r (vbs (b1 :: brest))). apply Hstream. }
+  destruct Hshape as [X [HX Hblk]].
+  exists (block_check 1012 (firstn sample_size file)), (encoding_check ip_latin1 ip_cp037 mtib).
+  split; [|split; [|split; [|split]]].
+  - unfold ip_inspect. exact (ip_info_valid 1012 _ _ _ _ file l4 mtib (bitmap_of pl) X H4 Hm Hbm HX Hun Hok).
+  - intros Hfam. exact (ip_guess_ascii cd mti mtib Hfam Hmne Hdig Henc).
+  - intros Hfam. exact (ip_guess_ebcdic cd mti mtib Hfam Hmne Hdig Henc).
+  - exact Hblk.
+  - intros _ Hs. apply ip_block_check_false; [rewrite ip_sample_size; lia|exact Hs].
+Qed.
+
+(* ====================================================================== C17: the generated families *)
+Lemma c17_families :
+  forallb (fun n => match codec_named n with Some cd => ip_ascii_digitsb cd | None => false end) CU.gen.GenCodec.ascii_family = true /\
+  forallb (fun n => match codec_named n with Some cd => ip_ebcdic_digitsb cd | None => false end) CU.gen.GenCodec.ebcdic_family = true.
+Proof. vm_compute. split; reflexivity. Qed.
+
+(* ====================================================================== C17: invalid inputs *)
+Lemma ip_bitmap_bad : forall cfg bm n, length bm = 16 -> 2 <= n <= 128 -> bit_set bm n = true ->
+  cfg_get cfg n = None -> bitmap_ok cfg bm = false.
+Proof.
+  intros cfg bm n Hlen Hn Hbit Hnone. unfold bitmap_ok. cbv zeta.
+  apply (ip_forallb_false _ _ (n - 1)).
+  - apply in_seq. rewrite bits_of_bytes_length, Hlen. lia.
+  - rewrite nth_bits_bit_set by lia. rewrite Hbit. replace (S (n - 1)) with n by lia. rewrite Hnone. reflexivity.
+Qed.
+
+Lemma c17_invalid : forall file,
+  (length file < 24 -> ip_inspect file = Invalid 1) /\
+  (24 <= length file -> (ip_maxlen < unbe (firstn 4 file))%N -> ip_inspect file = Invalid 2) /\
+  (24 <= length file -> (unbe (firstn 4 file) <= ip_maxlen)%N ->
+     (exists n, 2 <= n <= 128 /\ bit_set (slice 8 24 file) n = true /\ cfg_get ip_packaged n = None) ->
+     ip_inspect file = Invalid 3).
+Proof.
+  intros file. pose proof ip_sample_size as Hss. unfold ip_inspect, ipm_info. cbv zeta.
+  split; [|split].
+  - intros H. destruct (length (firstn sample_size file) <? 24) eqn:E; [reflexivity|].
+    apply Nat.ltb_ge in E. rewrite firstn_length in E. lia.
+  - intros H Hgt. destruct (length (firstn sample_size file) <? 24) eqn:E.
+    { apply Nat.ltb_lt in E. rewrite firstn_length in E. lia. }
+    rewrite (ip_firstn_firstn 4 sample_size file) by lia.
+    apply N.ltb_lt in Hgt. rewrite Hgt. reflexivity.
+  - intros H Hle [n [Hn [Hbit Hnone]]].
+    destruct (length (firstn sample_size file) <? 24) eqn:E.
+    { apply Nat.ltb_lt in E. rewrite firstn_length in E. lia. }
+    rewrite (ip_firstn_firstn 4 sample_size file) by lia.
+    destruct (ip_maxlen <? unbe (firstn 4 file))%N eqn:E2; [apply N.ltb_lt in E2; lia|].
+    rewrite (ip_slice_firstn 8 24 sample_size file) by lia.
+    rewrite (ip_bitmap_bad ip_packaged (slice 8 24 file) n); [reflexivity| |exact Hn|exact Hbit|exact Hnone].
+    rewrite ip_slice_length by exact H. reflexivity.
 Qed.
